@@ -175,6 +175,10 @@ type c02Session struct {
 	Opts []wire.OptionFn
 	Segs [][]byte
 	SSL  bool // the first reply byte is the SSL answer
+	// Params: statements declare the parameters ParseParameters finds in their text
+	Params bool
+	// ColNames, when set, replaces the default odd column names
+	ColNames []string
 }
 
 func c02Sessions(tier string) []c02Session {
@@ -190,7 +194,7 @@ func c02Sessions(tier string) []c02Session {
 		out = append(out, c02Session{Name: "extended " + name, Segs: segs})
 	}
 	// (a) result-writer programs with odd column names and tags
-	tags := []string{"c=", "c=SELECT 1", "c=@300"}
+	tags := []string{"c=", "c=SELECT 1", "c=@300", "c=@63", "c=@64", "c=@65"}
 	ops := []string{"r", "n", "a-", "a+", "u", "U", "e", "w"}
 	for nc := 0; nc <= 3; nc++ {
 		depth := 2
@@ -281,12 +285,47 @@ func c02Sessions(tier string) []c02Session {
 		}
 	}
 	// (f) oversized / unknown / terminate
+	// (h) column names and command tags of every length around the writer's internal buffer sizes
+	for _, n := range c05TagLengths() {
+		if n == 0 || n > 300 {
+			continue
+		}
+		out = append(out, c02Session{Name: fmt.Sprintf("column name and tag of %d bytes", n), ColNames: []string{strings.Repeat("n", n)},
+			Segs: [][]byte{start, pgproto.Query(fmt.Sprintf("1:r,c=@%d", n)), pgproto.Parse("", fmt.Sprintf("1:r,c=@%d", n)), pgproto.Bind("", "", nil, nil, nil), pgproto.Describe('P', ""), pgproto.Execute("", 0), pgproto.Sync()}})
+	}
+	// (i) statements declaring very many parameters (counts around the int16 / uint16 boundaries of the count word)
+	for _, n := range []int{1, 255, 256, 32767, 32768, 40000, 65535} {
+		q := fmt.Sprintf("1:r,c=T $%d", n)
+		out = append(out, c02Session{Name: fmt.Sprintf("statement declaring %d parameters", n), Params: true, Opts: []wire.OptionFn{wire.MessageBufferSize(1 << 20)},
+			Segs: [][]byte{start, pgproto.Parse("s", q), pgproto.Describe('S', "s"), pgproto.Sync(), pgproto.Query(progRows)}})
+	}
+	// (g) single bytes chosen by the client that select a sub-command or a message type: every value, known or not
+	// (whatever the server says about an unknown one must still be a well-formed message)
+	for b := 0; b < 256; b++ {
+		tail := [][]byte{pgproto.Sync(), pgproto.Query(progRows)}
+		mk := func(name string, m []byte) {
+			out = append(out, c02Session{Name: fmt.Sprintf("%s 0x%02x", name, b), Segs: append([][]byte{start, pgproto.Parse("s", progRows), m}, tail...)})
+		}
+		mk("Describe with target byte", pgproto.Msg('D', pgproto.Cat([]byte{byte(b)}, pgproto.CStr("s"))))
+		mk("Close with target byte", pgproto.Msg('C', pgproto.Cat([]byte{byte(b)}, pgproto.CStr("s"))))
+		if !strings.ContainsRune("QPBEDCSHXdcfp", rune(b)) {
+			mk("message of type", pgproto.Msg(byte(b), []byte("body\x00")))
+		}
+	}
 	out = append(out, c02Session{Name: "oversized+unknown+terminate", Segs: [][]byte{start, oversizedMsg(), pgproto.Msg('z', []byte("zz")), pgproto.Msg('p', []byte("late\x00")), pgproto.Terminate()}})
 	return out
 }
 
 func c02Serve(s c02Session, writeErrAt int) (*memnet.Conn, []string, string) {
 	rec := &script.Rec{Extra: c02Extra, ColNames: c02ColNames}
+	if s.ColNames != nil {
+		rec.ColNames = s.ColNames
+	}
+	if s.Params {
+		rec.StmtOpts = func(q string) []wire.PreparedOptionFn {
+			return []wire.PreparedOptionFn{wire.WithParameters(wire.ParseParameters(q))}
+		}
+	}
 	srv, err := harness.NewServer(rec.ParseFn(), s.Opts...)
 	if err != nil {
 		return nil, nil, err.Error()
@@ -390,7 +429,7 @@ func init() {
 		ID:          "C02",
 		Level:       "model_checking",
 		Technique:   "explicit-state enumeration of frame-writer operation sequences x sink faults on the real buffer.Writer against a list-of-frames model; exhaustive enumeration of sessions over an 'odd vocabulary' of handler programs and client histories on a real server, every captured byte stream parsed by an independent strict backend grammar; write-fault enumeration (every k-th write fails)",
-		Rule:        "F1: all operation sequences of length <= d over 13 writer operations (within the Start..End bracket) x {healthy sink, k-th write fails (sticky / transient), short write}; F2: ErrorResponse shapes (C17 enumeration to depth 3); F3: ~3k sessions (result-writer programs x 0-3 columns with odd names x tags; 64 decorator subsets simple+extended; all extended histories of length <= 2 over the C06 alphabet; startup/global parameters with empty and non-ASCII values, auth none/good/bad; SSL refusal; COPY for 1-3 columns x 2 formats x 3 policies x short client sequences; oversized/unknown) and for every 3rd session every position of a failing write; F4: one-column rows over the whole C09 value alphabet (types x boundary values x source forms x NULL forms) x {text, binary}",
+		Rule:        "F1: all operation sequences of length <= d over 13 writer operations (within the Start..End bracket) x {healthy sink, k-th write fails (sticky / transient), short write}; F2: ErrorResponse shapes (C17 enumeration to depth 3); F3: ~3k sessions (result-writer programs x 0-3 columns with odd names x tags; 64 decorator subsets simple+extended; all extended histories of length <= 2 over the C06 alphabet; startup/global parameters with empty and non-ASCII values, auth none/good/bad; SSL refusal; COPY for 1-3 columns x 2 formats x 3 policies x short client sequences; oversized/unknown; every value 0..255 of the Describe / Close target byte and of the message type byte) and for every 3rd session every position of a failing write; F4: one-column rows over the whole C09 value alphabet (types x boundary values x source forms x NULL forms) x {text, binary}",
 		Assumptions: []string{"handler-supplied strings contain no NUL byte (a C-string field cannot carry one)", "buffer.Writer is used inside its documented Start..End bracket"},
 		Enumerate:   c02Enumerate,
 		Bounds: func(tier string) map[string]any {
